@@ -119,7 +119,7 @@ def control_line(rng):
     if k < .96:
         return rng.choice(NEAR_DECL)
     if k < .98:
-        return rng.choice(ODD_SPACES) + words_line(rng)
+        return rng.choice(ODD_SPACES + ODD_BREAKS) + words_line(rng)
     return words_line(rng) + rng.choice(ODD_BREAKS) + words_line(rng)
 
 
